@@ -26,7 +26,8 @@
 (* first potential offset, stable sort by (offset, registration id).       *)
 (* Invariants relate that operational result to the declarative property:  *)
 (* ExactlyOncePerMatchingBlock, NoSiteInNonMatchingBlock,                  *)
-(* NeverAfterTerminator, OrderIsRegistrationOrder, AppliedEqualsSites.     *)
+(* NeverAfterTerminator, OrderIsRegistrationOrder, AppliedEqualsSites,     *)
+(* ContextFunctionIsBlockFunction.                                         *)
 (* Every terminal state (applied / refused) is emitted as a JSON case.     *)
 (***************************************************************************)
 EXTENDS Sequences, SequencesExt, Naturals, Integers, FiniteSets, Functions, Json, TLC, TLCExt
@@ -261,6 +262,11 @@ FnIdx(p, i) ==
          [] p.layout = "split2" -> IF i <= 2 THEN 1 ELSE 2
          [] p.layout = "tail" -> IF i = 1 THEN 0 ELSE 2
          [] p.layout = "head" -> IF i = 1 THEN 1 ELSE 0
+         \* a function-less block between two functions ("loose" code after a
+         \* function's block: the function of a block must be looked up per block)
+         [] p.layout = "mid" -> IF i = 1 THEN 1 ELSE IF i = 2 THEN 0 ELSE 2
+         \* function, function-less block, same function again
+         [] p.layout = "gap" -> IF i = 2 THEN 0 ELSE 1
 FnName(p, k) == CASE k = 1 -> p.n1 [] k = 2 -> p.n2 [] OTHER -> ""
 IsEntry(p, i) ==
   /\ FnIdx(p, i) # 0
@@ -279,10 +285,10 @@ LayoutFnt(nb) ==
   {lf \in Layouts \X FnTables :
      /\ (lf[2] # "present" => lf[1] = "none")
      /\ (lf[1] \in {"split1", "tail", "head"} => nb >= 2)
-     /\ (lf[1] = "split2" => nb >= 3)}
+     /\ (lf[1] \in {"split2", "mid", "gap"} => nb >= 3)}
 NameChoices(l) ==
   CASE l = "none" -> {<<DefaultName, DefaultName, "first">>}
-    [] l \in {"one", "head"} -> {<<n, DefaultName, e>> : n \in Names, e \in EntModes}
+    [] l \in {"one", "head", "gap"} -> {<<n, DefaultName, e>> : n \in Names, e \in EntModes}
     [] l = "tail" -> {<<DefaultName, n, e>> : n \in Names, e \in EntModes}
     [] OTHER -> {x \in {<<n, m, e>> : n \in Names, m \in Names, e \in EntModes} :
                     x[1] # x[2] /\ (BothOrders \/ NameIdx(x[1]) < NameIdx(x[2]))}
@@ -442,7 +448,10 @@ ApplySeq(M, regs, st) ==
          mods == (IF b.u \in DOMAIN st.byblock THEN st.byblock[b.u] ELSE <<>>)
                  \o SelectSeq(st.byscope, LAMBDA id : Matches(M, RegById(regs, id).scope, b))
          ev == [k \in 1..Len(mods) |->
-                  [reg |-> mods[k], u |-> b.u, off |-> FirstOffset(M, RegById(regs, mods[k]).scope.pos, b)]]
+                  [reg |-> mods[k], u |-> b.u, off |-> FirstOffset(M, RegById(regs, mods[k]).scope.pos, b),
+                   \* the function handed to the patch is looked up for THIS block
+                   \* ("" = none); nothing is carried over from the previous block
+                   fn |-> FnOfBlock(b)]]
      IN  SortSeq(ev, LAMBDA x, y : x.off < y.off \/ (x.off = y.off /\ x.reg < y.reg))])
 
 Apply ==
@@ -503,8 +512,16 @@ OrderIsRegistrationOrder(M, regs, ap) ==
                       (s1.u = s2.u /\ s1.off = s2.off /\ s1.reg < s2.reg) => posOf(s1) < posOf(s2)
 
 AppliedEqualsSites(M, regs, ap) ==
-  {[reg |-> ap[k].reg, u |-> ap[k].u, off |-> ap[k].off] : k \in DOMAIN ap}
-    = {[reg |-> s.reg, u |-> s.u, off |-> s.off] : s \in AllSites(M, regs)}
+  {[reg |-> ap[k].reg, u |-> ap[k].u, off |-> ap[k].off, fn |-> ap[k].fn] : k \in DOMAIN ap}
+    = {[reg |-> s.reg, u |-> s.u, off |-> s.off, fn |-> s.fn] : s \in AllSites(M, regs)}
+
+\* the context names the function of the block itself: none for a block outside
+\* every function, wherever it lies relative to function blocks
+ContextFunctionIsBlockFunction(M, ap) ==
+  \A k \in DOMAIN ap :
+     LET b == MBlock(M, ap[k].u)
+     IN  /\ (b.fn = <<>> <=> ap[k].fn = "")
+         /\ (b.fn # <<>> => ap[k].fn = b.fn[1] /\ ap[k].u \in FnBlocks(M, ap[k].fn))
 
 RefusalIsExact(M, regs) ==
   /\ (phase = "refused" => Refused(M, regs) /\ applied = <<>>)
@@ -531,6 +548,7 @@ Inv == /\ TypeOK
                        /\ NoSiteInNonMatchingBlock(M, regs, applied)
                        /\ NeverAfterTerminator(M, regs, applied)
                        /\ OrderIsRegistrationOrder(M, regs, applied)
-                       /\ AppliedEqualsSites(M, regs, applied)))
+                       /\ AppliedEqualsSites(M, regs, applied)
+                       /\ ContextFunctionIsBlockFunction(M, applied)))
        /\ EmitCase
 =============================================================================
